@@ -616,6 +616,7 @@ fn run_calls<T: Transactable>(t: &mut T, rng: &mut Rng, rep: &mut Report, cands:
             None => continue,
         };
         log.push(format!("{:?}", cmd));
+        let pending_before = t.pending_ops();
         let r = match guard(|| exec(t, &cmd)) {
             Ok(r) => r,
             Err(p) => {
@@ -636,6 +637,12 @@ fn run_calls<T: Transactable>(t: &mut T, rng: &mut Rng, rep: &mut Report, cands:
             Err(e) => err_class(e),
         };
         rep.count(&format!("call:{}:{}", cmd.kind(), if status == 0 { "ok" } else { "err" }));
+        if status != 0 && t.pending_ops() != pending_before {
+            // a rejected call leaves nothing behind (C06; C03; C29 when the transaction is scoped to older heads)
+            let ps: Vec<&str> = if scope.is_some() { vec!["C06", "C03", "C29"] } else { vec!["C06", "C03"] };
+            rep.fail(&ps, &format!("txn|rejected-call-left-ops|{}", cmd.kind()),
+                &format!("{} returned an error but the transaction's pending ops went from {} to {}", cmd.kind(), pending_before, t.pending_ops()), json!({"log": log.clone()}));
+        }
         let created = match r {
             Ok(Some(id)) => {
                 let ty = match &cmd {
@@ -1433,6 +1440,71 @@ fn probe_known_integrate_panic(rep: &mut Report) {
 /// regression probe (repaired by 9da869ded): increment inside a transaction scoped to heads at which a register
 /// holds a counter and a concurrent non-counter, both deleted since (add_succ_with_undo exposed the superseded
 /// counter as top op and reset_top's assert!(v) fired); afterwards memory and a reloaded copy must agree
+/// probe: a REJECTED editing call inside a transaction scoped to older heads leaves nothing behind (C06 / C03 / C29).
+/// Indexes are checked against the length the scope can address: a text that has grown since the heads, a mark / splice /
+/// insert / delete / put whose index lies between the scoped length and the current length must fail as a whole.
+fn probe_scoped_rejected_calls(rep: &mut Report) {
+    use automerge::marks::{ExpandMark, Mark};
+    let r = guard(|| {
+        let mut out: Vec<String> = vec![];
+        for enc in [automerge::TextEncoding::UnicodeCodePoint, automerge::TextEncoding::Utf8CodeUnit, automerge::TextEncoding::Utf16CodeUnit] {
+            let mut a = AutoCommit::new_with_encoding(enc).with_actor(ActorId::from(vec![1u8]));
+            let t = a.put_object(ROOT, "t", ObjType::Text).unwrap();
+            a.splice_text(&t, 0, 0, "abc").unwrap();
+            let l = a.put_object(ROOT, "l", ObjType::List).unwrap();
+            a.insert(&l, 0, 1).unwrap();
+            a.commit();
+            let hs = a.get_heads(); // text of width 3, list of length 1
+            a.splice_text(&t, 3, 0, "defgh").unwrap();
+            a.insert(&l, 1, 2).unwrap();
+            a.insert(&l, 2, 3).unwrap();
+            a.commit(); // now width 8, length 3
+            let before = a.document().save();
+            let calls: Vec<(&str, Box<dyn Fn(&mut automerge::transaction::Transaction<'_>) -> Result<(), automerge::AutomergeError>>)> = vec![
+                ("mark(1,6)", Box::new(|tx| tx.mark(&t, Mark::new("bold".to_string(), true, 1, 6), ExpandMark::None))),
+                ("mark(5,7)", Box::new(|tx| tx.mark(&t, Mark::new("bold".to_string(), true, 5, 7), ExpandMark::Both))),
+                ("unmark(1,6)", Box::new(|tx| tx.unmark(&t, "bold", 1, 6, ExpandMark::None))),
+                ("splice_text(5,0)", Box::new(|tx| tx.splice_text(&t, 5, 0, "x"))),
+                ("splice_text(1,4)", Box::new(|tx| tx.splice_text(&t, 1, 4, ""))),
+                ("insert(l,2)", Box::new(|tx| tx.insert(&l, 2, 9))),
+                ("put(l,1)", Box::new(|tx| tx.put(&l, 1, 9))),
+                ("delete(l,2)", Box::new(|tx| tx.delete(&l, 2))),
+                ("splice(l,1,1)", Box::new(|tx| tx.splice(&l, 1, 1, Vec::<ScalarValue>::new()))),
+            ];
+            for (name, call) in calls.iter() {
+                let mut m: Automerge = a.document().clone();
+                let heads0 = m.get_heads();
+                let mut tx = m.transaction_at(PatchLog::inactive(), &hs).unwrap();
+                let res = call(&mut tx);
+                let pending = tx.pending_ops();
+                if res.is_err() && pending != 0 {
+                    out.push(format!("{:?}: {} returned an error but left {} pending op(s)", enc, name, pending));
+                }
+                if res.is_err() {
+                    tx.commit();
+                    if m.get_heads() != heads0 || m.save() != before {
+                        out.push(format!("{:?}: after the rejected {} and commit the document changed (heads / saved bytes)", enc, name));
+                    }
+                } else {
+                    tx.rollback();
+                }
+            }
+        }
+        out
+    });
+    rep.count("probe_scoped_rejected_calls");
+    match r {
+        Ok(v) => {
+            for w in v {
+                rep.fail(&["C06", "C03", "C29"], "txn|probe-scoped-rejected-call|left-ops", &w,
+                    json!({"probe": "text abc / list [1] at heads hs; later text abcdefgh / list [1,2,3]; transaction_at(hs): calls whose index lies between the scoped and the current length"}));
+            }
+        }
+        Err(p) => rep.fail(&["C29", "C37"], &format!("panic|txn|probe-scoped-rejected|{}", p.signature()),
+            &format!("a rejected call in a scoped transaction panicked: {} at {}", p.message, p.location), json!({})),
+    }
+}
+
 fn probe_scoped_increment(rep: &mut Report) {
     let r = guard(|| {
         let mut a = AutoCommit::new().with_actor(ActorId::from(vec![1u8]));
@@ -1835,6 +1907,7 @@ pub fn run(rng: &mut Rng, tier: &str, out: &str) -> Report {
     probe_known_integrate_panic(&mut rep);
     probe_counter_zero(&mut rep);
     probe_scoped_increment(&mut rep);
+    probe_scoped_rejected_calls(&mut rep);
     probe_scoped_splice_delete(&mut rep);
     let only = std::env::var("VERIF_TXN_ONLY").ok();
     let skip = |part: &str, pi: usize| only.as_ref().map(|o| *o != format!("{}:{}", part, pi)).unwrap_or(false);
